@@ -342,6 +342,19 @@ Proof.
   exact (emitted_file_sound g ptx false false inline gen_asu buf penv Hd n r _ _ Hs Hr Hex R).
 Qed.
 
+Corollary generated_code_noast_every inline n r st0 rr :
+  (forall rb, nth_error g ptx = Some rb -> rb = RNil) ->
+  deep_table_b g inline = true -> o_inline (mk_opts false false inline g) r = false -> reached (count_rules g) r = true ->
+  peg_parse g ptx buf penv (S n) r = Some rr ->
+  forall res, xcall buf penv (mk_opts false false inline g) (gen_fn_noast inline) r (reset st0) res ->
+    exists st', res = Ret (match fst rr with Fail => false | Succ _ _ => true end) st' /\
+      alog st' = Runtime.execute g ptx (snd rr) (text st0) /\
+      match fst rr with Succ p _ => pos st' = p /\ p <= length buf | Fail => True end.
+Proof.
+  intros Hptx Hd Hs Hr H res Hx. destruct (generated_code_noast inline n r st0 rr Hptx Hd Hs Hr H) as (st' & Hx0 & L & P).
+  rewrite (xcall_det _ _ _ _ _ _ _ _ Hx Hx0). eauto.
+Qed.
+
 End EndToEnd.
 Print Assumptions generated_code_is_peg.
 Print Assumptions generated_code_noast.
